@@ -27,9 +27,16 @@ pub fn check_program(ctx: &mut Ctx, p: &Program) {
         let bytes = b.build();
         let bl = b.byte_len();
         let has: Vec<bool> = p.attrs.iter().map(|a| b.has_attribute(AttributeType::new(a.ty()))).collect();
-        Ok::<_, String>((bytes, bl, has))
+        // the other serialisation paths, into destinations that are not zero-filled (a reused buffer)
+        let mut alt: Vec<(&'static str, Result<Vec<u8>, String>)> = vec![];
+        let mut d = vec![0xA5u8; bl];
+        alt.push(("write_into(dirty)", b.write_into(&mut d).map(|n| d[..n].to_vec()).map_err(|e| format!("{e:?}"))));
+        let owned = b.clone().into_owned();
+        let mut d = vec![0x5Au8; bl + 8];
+        alt.push(("into_owned().write_into(dirty)", owned.write_into(&mut d).map(|n| d[..n].to_vec()).map_err(|e| format!("{e:?}"))));
+        Ok::<_, String>((bytes, bl, has, alt))
     });
-    let (bytes, bl, has) = match r {
+    let (bytes, bl, has, alt) = match r {
         Err(pn) => {
             ctx.violation("C03", "build-no-panic", "MessageBuilder", "", w, "bytes".into(), format!("panic: {} at {}", pn.msg, pn.loc));
             return;
@@ -83,15 +90,38 @@ pub fn check_program(ctx: &mut Ctx, p: &Program) {
         let rp = ref_parse(&want);
         rp.attrs.iter().map(|a| (a.ty, a.value(&want).to_vec())).collect()
     };
+    let mut sers: Vec<(&'static str, Vec<u8>)> = vec![("MessageBuilder::build", bytes.clone())];
+    for (label, r) in alt {
+        match r {
+            Ok(b2) => sers.push((label, b2)),
+            Err(e) => ctx.violation("C03", "serialises", label, "", w, format!("{} bytes written", bytes.len()), format!("Err({e})")),
+        }
+    }
+    for (si, (ser_label, bytes)) in sers.iter().enumerate() {
+        let ser_label: &'static str = ser_label;
+        if si > 0 {
+            ctx.count("alternative-serialisations-read-back");
+        }
+        readback(ctx, p, ser_label, bytes, &expected);
+    }
+}
+
+fn readback(ctx: &mut Ctx, p: &Program, ser_label: &'static str, bytes: &[u8], expected: &[(u16, Vec<u8>)]) {
+    let w = || {
+        let mut v = p.to_json();
+        v["serialised_by"] = serde_json::json!(ser_label);
+        v
+    };
+    let via = if ser_label == "MessageBuilder::build" { String::new() } else { format!(",via={ser_label}") };
     let rb = guard(|| {
-        Message::from_bytes(&bytes).map(|m| {
+        Message::from_bytes(bytes).map(|m| {
             let attrs: Vec<(u16, Vec<u8>)> = m.iter_attributes().map(|a| (a.get_type().value(), a.value.to_vec())).collect();
             (class_num(m.class()), m.method(), imp::tid_to_bytes(m.transaction_id()), attrs, m.validate_integrity(&imp::to_impl_creds(&p.creds)).map_err(|e| format!("{e:?}")))
         })
     });
     match rb {
         Err(pn) => ctx.violation("C03", "readback-no-panic", "Message::from_bytes", "", w, "Ok".into(), format!("panic: {} at {}", pn.msg, pn.loc)),
-        Ok(Err(e)) => ctx.violation("C03", "readback-parses", "Message::from_bytes", "", w, "Ok".into(), format!("Err({e:?}) on {}", hex(&bytes[..bytes.len().min(160)]))),
+        Ok(Err(e)) => ctx.violation("C03", "readback-parses", "Message::from_bytes", via.trim_start_matches(','), w, "Ok".into(), format!("Err({e:?}) on {}", hex(&bytes[..bytes.len().min(160)]))),
         Ok(Ok((c, m, tid, attrs, val))) => {
             if c != p.class || m != p.method || tid != p.tid {
                 ctx.violation(
@@ -104,13 +134,13 @@ pub fn check_program(ctx: &mut Ctx, p: &Program) {
                     format!("class {c} method {m:#x} tid {}", hex(&tid)),
                 );
             }
-            if attrs != expected {
+            if attrs.as_slice() != expected {
                 let tail = p.seals.iter().map(|s| s.name()).collect::<Vec<_>>().join(",");
                 ctx.violation(
                     "C03",
                     "readback-attributes",
                     "iter_attributes",
-                    &format!("seals={tail}"),
+                    &format!("seals={tail}{via}"),
                     w,
                     format!("{:?}", expected.iter().map(|a| format!("{:#06x}/{}", a.0, a.1.len())).collect::<Vec<_>>()),
                     format!("{:?}", attrs.iter().map(|a| format!("{:#06x}/{}", a.0, a.1.len())).collect::<Vec<_>>()),
@@ -146,7 +176,7 @@ pub fn check_program(ctx: &mut Ctx, p: &Program) {
                     "C04",
                     "sealed-validates",
                     "Message::validate_integrity",
-                    &format!("seals={}", p.seals.iter().map(|s| s.name()).collect::<Vec<_>>().join(",")),
+                    &format!("seals={}{via}", p.seals.iter().map(|s| s.name()).collect::<Vec<_>>().join(",")),
                     w,
                     if x { "Ok".into() } else { "Err(MissingAttribute)".into() },
                     format!("{y:?}"),
